@@ -220,6 +220,8 @@ class MetaWorld:
             um = self.tokmap(self.addr[u])
             users_tok[u] = um
             for (c, n), x in um.items():
+                if c in self.seen:       # farm / unbond tokens in users' hands: the proxy must NOT hold them
+                    self.seen[c].add(n)
                 if c == TK_DY:
                     hold[n * 1000 + u] = x
                     if n not in self.dy_attrs:
@@ -474,9 +476,10 @@ def coq_obs(o):
     outs = "[" + "; ".join(zlit(x) for x in o["outs"]) + "]"
     at = "[" + "; ".join(f"({n}, mkDA {a[0]} {a[1]} {a[2]} {a[3]})" for n, a in sorted(o["attrs"].items())) + "]"
     reg = o["meas"]["dreg"] if o.get("meas") else 0
+    liq = o["meas"]["liq"] if o.get("meas") and o["ok"] and o["meas"].get("safe") else -1
     return (f"mkMObs {b(o['ok'])} {outs} {coq_pairs(sorted(o['lpf'].items()))} {coq_pairs(sorted(o['sf'].items()))} "
             f"{coq_pairs(sorted(o['fung'].items()))} {at} {coq_pairs(sorted(o['hold'].items()))} "
-            f"{coq_pairs(sorted(o['sup'].items()))} {zlit(reg)}")
+            f"{coq_pairs(sorted(o['sup'].items()))} {zlit(reg)} {zlit(liq)}")
 
 
 def coq_history(cfg, trace):
